@@ -200,6 +200,8 @@ HANDMADE = [
     ([('a', 'INPUT', ()), ('y', 'INPUT', ()), ('n1', 'NOT', ('a',)), ('n2', 'NOT', ('n1',)), ('i', 'LIFF', ('b2', 'y')) if False else ('i', 'LIFF', ('n2', 'y')), ('o', 'AND', ('a', 'y')), ('p', 'AND', ('n2', 'i'))], ['o', 'p']),
     # n-ary gates with repeated operands
     ([('a', 'INPUT', ()), ('b', 'INPUT', ()), ('x', 'XOR', ('a', 'b', 'a')), ('y', 'XOR', ('a', 'a', 'b')), ('o', 'NAND', ('x', 'y', 'b'))], ['o', 'x']),
+    # the same operand in every position of an n-ary gate
+    ([('a', 'INPUT', ()), ('b', 'INPUT', ()), ('x', 'XOR', ('a', 'a', 'a')), ('y', 'NXOR', ('b', 'b', 'b')), ('z', 'AND', ('a', 'a', 'a')), ('o', 'OR', ('x', 'y', 'z'))], ['o', 'x', 'y']),
     # nothing but inputs as outputs
     ([('a', 'INPUT', ()), ('b', 'INPUT', ())], ['b', 'b', 'a']),
 ]
